@@ -68,4 +68,11 @@ example : let r := interact (some 29) id id s0 [.childOut [120], .userIn [97, 98
     r.1.shown = [104, 105, 120] ∧ r.1.toChild = [97, 98] ∧ r.1.escaped = true ∧ r.1.mode = .cooked ∧ r.1.pending = [] ∧
     r.2.length = 1 := by decide
 
+/-- the write-all loop towards the child: whatever the child's terminal takes per `os.write` (at least one byte), exactly the bytes it was
+    given arrive, in order — so what precedes the escape character in its read is delivered even in pieces -/
+theorem typed_bytes_arrive_under_short_writes (ks : List Nat) (d : List Nat) : (Ia.writen ks d).flatten = d :=
+  Ia.writen_delivers_all ks d
+
+example : Ia.writen [3, 3, 1] [104, 101, 108, 108, 111, 32, 119, 111] = [[104, 101, 108], [108, 111, 32], [119], [111]] := by decide
+
 end C15
